@@ -489,9 +489,37 @@ def family_removal_variants(tier, seed):
                         {"op": "place", "o": "r3", "t": "tr3", "sel": 13, "side": "LAY", "type": "MARKET_ON_CLOSE", "size": 12.5},
                         {"op": "place", "o": "r4", "t": "tr4", "sel": 11, "side": "BACK", "price": 4.0, "size": 3.0},                     # on the runner that goes
                         {"op": "place", "o": "r5", "t": "tr5", "sel": 13, "side": "BACK", "price": 4.1, "size": 6.0, "pers": "PERSIST"},  # rests, fills partly
-                        {"op": "place", "o": "r6", "t": "tr6", "sel": 11, "side": "LAY", "type": "MARKET_ON_CLOSE", "size": 8.0},         # SP lay on the runner that goes first
+                        {"op": "place", "o": "r6", "t": "tr6", "sel": 11, "side": "LAY", "type": "MARKET_ON_CLOSE", "size": 15.0},         # SP lay on the runner that goes first
                         {"op": "place", "o": "r7", "t": "tr7", "sel": 14, "side": "BACK", "price": 4.0, "size": 2.0},                     # on the runner that goes second
                         {"op": "place", "o": "r8", "t": "tr8", "sel": 14, "side": "LAY", "price": 3.5, "size": 2.0, "pers": "PERSIST"}]   # resting on it
                 m = {"id": "1.100000001", "event_id": "30000001", "market_type": mtype, "winners": winners, "bsp": True, "persistence": True, "runners": [11, 12, 13, 14], "updates": ups}
                 out.append({"id": "rv%d" % k, "cfg": {}, "markets": [m], "strategies": [{"name": "A", "max_live_trade_count": 1000, "script": {"1.100000001|0|book": acts}}]})
+    return out
+
+
+def family_sp_conversion(tier, seed):
+    """limit orders with MARKET_ON_CLOSE persistence carried to the starting price after every kind of earlier
+    bookkeeping: untouched, partly matched by trades, partly cancelled (the cancel executed before the off), both,
+    fully matched before the off; BACK and LAY; starting price above / below / at the limit"""
+    out = []
+    k = 0
+    for side in ("BACK", "LAY"):
+        for pre in ("none", "fill", "cancel", "fill+cancel", "full"):
+            for sp in (2.1, 3.0, 4.5):
+                k += 1
+                price = 3.0
+                def up(pt, trd=0.0, status="OPEN", inplay=False, rec=False, version=1):
+                    rs = {"11": ["ACTIVE", 50.0, sp if rec else None], "12": ["ACTIVE", 50.0, 3.2 if rec else None]}
+                    # the order rests: BACK asks more than is bid, LAY bids less than is asked
+                    book11 = _bk([[2.5, 50.0]], [[3.5, 50.0]], [[price, trd]])
+                    return {"pt": pt, "status": status, "version": version, "inplay": inplay, "bsp_rec": rec, "bet_delay": 1 if inplay else 0,
+                            "rstat": rs, "books": {"11": book11, "12": _bk([[3.0, 10.0]], [[3.4, 10.0]], [])}}
+                fills = {"none": 0.0, "fill": 4.0, "cancel": 0.0, "fill+cancel": 4.0, "full": 40.0}[pre]      # reported volume (both sides)
+                ups = [up(0), up(1000), up(2000, trd=fills), up(3000, trd=fills), up(4000, trd=fills),
+                       up(5000, trd=fills, status="SUSPENDED", version=2), up(6000, trd=fills, inplay=True, rec=True, version=3), up(7000, trd=fills, inplay=True, rec=True, version=3)]
+                script = {"1.100000001|0|book": [{"op": "place", "o": "s1", "t": "ts1", "sel": 11, "side": side, "price": price, "size": 10.0, "pers": "MARKET_ON_CLOSE"}]}
+                if "cancel" in pre:
+                    script["1.100000001|3000|book"] = [{"op": "cancel", "o": "s1", "reduction": 4.0}]
+                m = {"id": "1.100000001", "event_id": "30000001", "market_type": "WIN", "winners": 1, "bsp": True, "persistence": True, "runners": [11, 12], "updates": ups}
+                out.append({"id": "spc%d" % k, "cfg": {}, "markets": [m], "strategies": [{"name": "A", "max_live_trade_count": 10, "script": script}]})
     return out
